@@ -284,6 +284,7 @@ func rootOfAddr(v ssa.Value) ssa.Value {
 }
 
 func c05(r *core.Run) {
+	defer c05Extra(r)
 	p := r.P
 	r.Explanation = "Decides, for every path of the unmarshalling code (lib/mapping, lib/conf, api/httpx, the two encoding helpers): every reflect SetInt/SetUint/SetFloat is guarded by the matching Overflow* test on the same reflect.Value and operand; every single-result type assertion is justified by a dominating successful comma-ok/type-switch on the same value or by the per-kind agreement between the string converter and the typed setter (and each call of the setter is fed by the converter for the same kind under err == nil); the per-document copy of the cached field options keys every field from the cached original, returns the original only when the resolved Optional equals it, and the cached options are written only while still private to their constructor; range/options validators guard every assignment in the six primitive-assignment functions; validateNumberRange implements exactly the [ ( ] ) boundary table; the YAML entry points are YamlToJson followed by the JSON entry point; httpx.Parse runs the four part parsers in order and stops at the first error; the four process-wide caches are touched only under their locks."
 	r.NotDecided = "exactness for every struct shape x document (value-dependent reflect behaviour, float32 rounding, Convert between same-kind types), defaults/optional semantics in full, panic-freedom of reflect.Set/SetMapIndex with named element/key types, JSON==YAML equality of the produced struct, the httpc->httpx round trip."
